@@ -244,10 +244,17 @@ class FuncORD:
         if ok is True:
           return Prov('SORTED', norm_text(key))
         if isinstance(ok, str) and ok.startswith('tuple:'):
-          if self._tuple_position_is_time(node.args[0], int(ok.split(':')[1]), at):
+          tp = self._tuple_position_is_time(node.args[0], int(ok.split(':')[1]), at)
+          if tp:
             return Prov('SORTED', norm_text(key))
-        if key is None and self._elements_are_time_tuples(node.args[0], at):
-          return Prov('SORTED', 'natural order of (time, ...) tuples')
+          if tp is None:
+            return Prov('BADSORT', UNK + 'sorted() by tuple position %s of elements whose producers could not be determined' % ok.split(':')[1])
+        if key is None:
+          tt = self._elements_are_time_tuples(node.args[0], at)
+          if tt:
+            return Prov('SORTED', 'natural order of (time, ...) tuples')
+          if tt is None and not self.is_storage_attr(node.args[0]):
+            return Prov('BADSORT', UNK + 'sorted() without a key over elements whose producers could not be determined')
         if ok == 'unknown':
           return Prov('BADSORT', UNK + 'sorted() of storage-ordered data with key %s, which could not be resolved to its fields' % norm_text(key))
         return Prov('BADSORT', 'sorted() of storage-ordered data with key %s that does not start with a time/step field' % (
@@ -320,8 +327,11 @@ class FuncORD:
       for (ln, key, st) in self.sorts.get(name, []):
         if last_def <= ln < at_line and not any(ln < l2 < at_line for (l2, _s) in self.appends.get(name, [])):
           ok = self.sort_key_ok(key)
-          if ok is True or (isinstance(ok, str) and ok.startswith('tuple:') and self._tuple_position_is_time(ast.Name(id=name, ctx=ast.Load()), int(ok.split(':')[1]), st)):
+          tp = self._tuple_position_is_time(ast.Name(id=name, ctx=ast.Load()), int(ok.split(':')[1]), st) if (isinstance(ok, str) and ok.startswith('tuple:')) else False
+          if ok is True or tp:
             return Prov('SORTED', norm_text(key))
+          if ok == 'unknown' or tp is None:
+            return Prov('BADSORT', UNK + '.sort() with key %s, whose fields / tuple producers could not be resolved' % (norm_text(key) if key is not None else 'None'))
           return Prov('BADSORT', '.sort() with key %s that does not start with a time/step field' % (norm_text(key) if key is not None else 'None'))
     return p
 
@@ -398,13 +408,18 @@ class FuncORD:
     return [None]
 
   def _tuple_position_is_time(self, node, pos, at):
+    """True: every producer of the list is a tuple whose element `pos` is a time; False: some producer is a tuple whose element
+    `pos` is not; None: the producers (or their shape) could not be determined."""
     prods = self._list_producers(node, at)
     if not prods:
-      return False
+      return None
+    unknown = False
     for p in prods:
-      if not (isinstance(p, ast.Tuple) and len(p.elts) > pos and _is_time_expr(p.elts[pos], None)):
+      if not (isinstance(p, ast.Tuple) and len(p.elts) > pos):
+        unknown = True
+      elif not _is_time_expr(p.elts[pos], None):
         return False
-    return True
+    return None if unknown else True
 
   def _elements_are_time_tuples(self, node, at):
     return self._tuple_position_is_time(node, 0, at)
